@@ -200,6 +200,7 @@ func enact(run int, sc schedule) []map[string]any {
 	waiting := map[int]*arrival{} // tx -> arrival blocked at the gate
 	var strays []*arrival
 	infeasible := false
+	stuck := false
 	pull := func(d time.Duration) bool {
 		select {
 		case a := <-g.arrivals:
@@ -248,11 +249,12 @@ func enact(run int, sc schedule) []map[string]any {
 			goto finished
 		default:
 		}
-		if !pull(2 * time.Second) {
+		if !pull(sim.Patience(2 * time.Second)) {
 			select {
 			case <-allDone:
 				goto finished
 			default:
+				stuck = true
 				evs = append(evs, map[string]any{"op": "stuck", "run": run})
 				goto finished
 			}
@@ -275,7 +277,7 @@ finished:
 		}
 		frames = append(frames, map[string]any{"wf": f.WellFormed, "tx": which, "len": len(f.Raw)})
 	}
-	evs = append(evs, map[string]any{"op": "end", "run": run, "infeasible": infeasible, "frames": frames, "pending": sp.Pending(),
+	evs = append(evs, map[string]any{"op": "end", "run": run, "infeasible": infeasible, "stuck": stuck, "frames": frames, "pending": sp.Pending(),
 		"garbage": sp.Garbage, "unknown": g.unknown})
 	g.mu.Unlock()
 	return evs
